@@ -37,6 +37,7 @@ Definition s_tn (p : profile) (e : endian) (file : bytes) (ds : list dirent) := 
 Definition s_hd (v : version) (p : profile) (e : endian) (file : bytes) (ds : list dirent) := get_stream file ds ST_HANDLE_DATA (read_handle_data v p e file).
 Definition s_ms (e : endian) (file : bytes) (ds : list dirent) := get_stream file ds ST_MISC_INFO (fun s => lift (read_misc_info e s)).
 Definition s_raw (file : bytes) (ds : list dirent) (ty : Z) : res bytes := raw_stream file ds ty.
+Definition s_cp (e : endian) (file : bytes) (ds : list dirent) := get_stream file ds ST_CRASHPAD (read_crashpad_info e file).
 Definition s_ex (e : endian) (file : bytes) (ds : list dirent) := get_stream file ds ST_EXCEPTION (fun s => lift (read_exception e s)).
 Definition f_exp (v : version) (ex : res (Z * (Z * Z))) : field :=
   match ex with Ok (n, _) => fld (fun _ => []) (exception_print v n) | _ => FOk [] end.
@@ -93,7 +94,7 @@ Definition f_ma (e : endian) (file : bytes) (mem : res (list bytes)) : field :=
   fld (fun regions => flat_map (region_probes e file) (firstn 8 regions)) mem.
 
 (* field tags: 0 R  1 SI  2 TL  3 ML  4 UM  5 MEM  6 M64  7 MI  8 TI  9 TN  10 HD  11 EX  12 EXP  13 EXC
-   14 TLP  15 MS  16 LC  17 LS  18 LR  19 LE  20 LL  21 MA *)
+   14 TLP  15 MS  16 LC  17 LS  18 LR  19 LE  20 LL  21 MA  22 CP *)
 Definition run_case (v : version) (p : profile) (file : bytes) : c01_out :=
   match read_header file with
   | Ok (e, ds) =>
@@ -109,10 +110,11 @@ Definition run_case (v : version) (p : profile) (file : bytes) : c01_out :=
                       (16, f_kv 58 (s_raw file ds ST_LINUX_CPU)); (17, f_kv 58 (s_raw file ds ST_LINUX_STATUS));
                       (18, f_kv 61 (s_raw file ds ST_LINUX_LSB)); (19, f_kv 61 (s_raw file ds ST_LINUX_ENVIRON));
                       (20, f_lines (s_raw file ds ST_MOZ_LIMITS));
-                      (21, f_ma e file (snd (s_mem p e file ds)))];
+                      (21, f_ma e file (snd (s_mem p e file ds)));
+                      (22, fld (fun x => [fst x; fst (snd x); snd (snd x)]) (snd (s_cp e file ds)))];
          o_ledger := fst (s_tl p e file ds) ++ fst (s_ml p e file ds) ++ fst (s_um p e file ds) ++ fst (s_mem p e file ds)
                      ++ fst (s_m64 p e file ds) ++ fst (s_mi p e file ds) ++ fst (s_ti p e file ds) ++ fst (s_tn p e file ds)
-                     ++ fst (s_hd v p e file ds) |}
+                     ++ fst (s_hd v p e file ds) ++ fst (s_cp e file ds) |}
   | Err e => {| o_fields := [(0, FErr e)]; o_ledger := [] |}
   | Pan t => {| o_fields := [(0, FPan t)]; o_ledger := [] |}
   | NoFuel => {| o_fields := [(0, FNoFuel)]; o_ledger := [] |}
@@ -122,4 +124,4 @@ Definition run_case (v : version) (p : profile) (file : bytes) : c01_out :=
 Definition sizes : list Z :=
   [MSZ_THREAD_RAW; MSZ_MODULE_RAW; MSZ_MEMDESC_RAW; MSZ_MEMDESC64_RAW; MSZ_MEMINFO_RAW; MSZ_THREADINFO_RAW;
    MSZ_UNLOADED_RAW; MSZ_THREADNAME_RAW; MSZ_THREAD; MSZ_MODULE; MSZ_MEMORY; MSZ_MEMORY64; MSZ_THREADINFO;
-   MSZ_UNLOADED; MSZ_HANDLE].
+   MSZ_UNLOADED; MSZ_HANDLE; MSZ_STRING; MSZ_MODULE_CRASHPAD].
